@@ -59,9 +59,11 @@ def newPos (m : Model α) (cs' : List Comp) (i : Nat) : Nat :=
   | none => i
 
 /-- **the reordered model**: compartment list `cs'`, and every positional read in a flow weight or a
-mixing-matrix entry follows its compartment to the new position.  For a model that does not read
-compartments by position (`posFreeModel`) this is just `withComps m cs'`
-(`Summer.Proofs.InvPermComps.permModel_of_posFree`). -/
+mixing-matrix entry follows its compartment to the new position.  For a model none of whose flow
+parameters, adjustments and mixing entries reads a compartment by position this is literally
+`withComps m cs'` (`Summer.Proofs.InvPermComps.permModel_eq_withComps`); for a model whose REALISED
+weights do not (`posFreeModel`) the two have the same right-hand side (`C15PermComps.perm_comps_step`
+and `perm_comps_step_general`). -/
 def permModel (m : Model α) (cs' : List Comp) : Model α :=
   { m with comps := cs'
            flows := m.flows.map (reindexFlow (newPos m cs'))
@@ -95,16 +97,25 @@ variable {α : Type} [Zero α] [One α] [Add α] [Sub α] [Mul α] [Div α] [LT 
 def relabelOut (m : Model α) (cs' : List Comp) (o : StepOut α) : StepOut α :=
   { o with compInf := relabel m cs' o.compInf, compRates := relabel m cs' o.compRates }
 
+/-- what the solvers need of a relabelling `σ` of the vectors of length `n`: it keeps the length and
+commutes with the (truncating) vector addition and with scaling -/
+structure LinRelabel (n : Nat) (σ : List α → List α) : Prop where
+  len : ∀ a, a.length = n → (σ a).length = n
+  add : ∀ a b, a.length = n → b.length = n → σ (vadd a b) = vadd (σ a) (σ b)
+  smul : ∀ k a, σ (vscale k a) = vscale k (σ a)
+
 /-- the stepping state of `odeint` with its state-valued fields relabelled -/
 def relabelState (σ : List α → List α) (s : Solvers.OdeState α) : Solvers.OdeState α :=
   { s with y := σ s.y, f := σ s.f, coeff := s.coeff.map σ }
 
 /-- the only part of the step controller that looks at the state vectors is the error ratio; it is
-invariant under a relabelling `σ` when relabelling the error estimate and both states leaves it
-unchanged (true in exact arithmetic of the root-mean-square `mean_error_ratio` of `runner/jax/ode.py`,
-a symmetric function of the entries; in floating point only up to the rounding of `jnp.mean`) -/
-def RelabelInvariantCtl (ctl : Solvers.Control α) (σ : List α → List α) : Prop :=
-  ∀ err y0 y1, ctl.errorRatio (σ err) (σ y0) (σ y1) = ctl.errorRatio err y0 y1
+invariant under a relabelling `σ` of the vectors of length `n` when relabelling the error estimate and
+both states leaves it unchanged (true in exact arithmetic of the root-mean-square `mean_error_ratio` of
+`runner/jax/ode.py`, a symmetric function of the entries; in floating point only up to the rounding of
+`jnp.mean`) -/
+def RelabelInvariantCtl (ctl : Solvers.Control α) (n : Nat) (σ : List α → List α) : Prop :=
+  ∀ err y0 y1, err.length = n → y0.length = n → y1.length = n →
+    ctl.errorRatio (σ err) (σ y0) (σ y1) = ctl.errorRatio err y0 y1
 
 end out
 
